@@ -213,7 +213,9 @@ def _is_imported_std_net_type_call(path: str, code: str) -> bool:
     use_pattern = (
         r"use\s+std::net::(?:" + re.escape(type_name) + r"\b|\{[^}]*\b" + re.escape(type_name) + r"\b)"
     )
-    return re.search(use_pattern, code) is not None
+    # Only real use declarations count, not ones quoted in comments
+    code_without_comments = re.sub(r"//[^\n]*|/\*.*?\*/", "", code, flags=re.DOTALL)
+    return re.search(use_pattern, code_without_comments) is not None
 
 
 def _classify_blocking_pattern(path: str) -> str | None:
